@@ -565,14 +565,24 @@ func (mw *TinkEncryptionPartStoreMiddleware) GetPart(ctx context.Context, tx dat
 		}
 
 		// Create a decrypting reader for the remaining data
-		decryptReader, err := dekStreamingAEAD.NewDecryptingReader(rc, partId.Bytes())
+		ciphertext := &countingReader{r: rc}
+		decryptReader, err := dekStreamingAEAD.NewDecryptingReader(ciphertext, partId.Bytes())
 		if err != nil {
 			closeUnderlying()
+			if err == io.EOF {
+				// The stream ends where the tink header must begin: truncated.
+				err = io.ErrUnexpectedEOF
+			}
 			return nil, err
+		}
+		checkedReader := &truncationCheckingReader{
+			Reader:        decryptReader,
+			ciphertext:    ciphertext,
+			tinkHeaderLen: int64(dekStreamingAEAD.HeaderLength()),
 		}
 
 		// Return a composite reader that wraps the decrypt reader with the underlying closer
-		return &compositeReadCloser{decryptReader, closerFunc(closeUnderlying)}, nil
+		return &compositeReadCloser{checkedReader, closerFunc(closeUnderlying)}, nil
 	})
 
 	return ioutils.NewReadCloserWithCloseHook(lazyReader, closeUnderlying), nil
@@ -642,6 +652,45 @@ func (mw *TinkEncryptionPartStoreMiddleware) readPartHeaderAndDEK(rc io.Reader, 
 	}
 
 	return finalDEK, segmentSize, int64(4 + headerLen), nil
+}
+
+// countingReader counts the bytes handed out by r.
+type countingReader struct {
+	r io.Reader
+	n int64
+}
+
+func (c *countingReader) Read(p []byte) (int, error) {
+	n, err := c.r.Read(p)
+	c.n += int64(n)
+	return n, err
+}
+
+// truncationCheckingReader guards the end of tink-go's sequential decrypting
+// reader. That reader keeps one byte of look-ahead to recognise the last
+// segment (the only one whose nonce authenticates the end of the stream) and
+// reports a clean io.EOF when the ciphertext ends right after the tink header
+// or exactly one byte after a complete segment, although no last segment was
+// decrypted. A stream that was read up to its authenticated last segment
+// consists of the tink header, the plaintext bytes and one tag per segment;
+// anything else at io.EOF means the ciphertext was cut off.
+type truncationCheckingReader struct {
+	io.Reader
+	ciphertext    *countingReader
+	tinkHeaderLen int64
+	plaintextLen  int64
+}
+
+func (r *truncationCheckingReader) Read(p []byte) (int, error) {
+	n, err := r.Reader.Read(p)
+	r.plaintextLen += int64(n)
+	if err == io.EOF {
+		overhead := r.ciphertext.n - r.tinkHeaderLen - r.plaintextLen
+		if overhead < tinkTagSize || overhead%tinkTagSize != 0 {
+			return n, io.ErrUnexpectedEOF
+		}
+	}
+	return n, err
 }
 
 // compositeReadSeekCloser combines a ReadSeeker with a Closer.
